@@ -24,6 +24,9 @@ P = "schema::parser::Parser::"
 KIND_OF_TYPE = {"int": "Int", "long": "Long", "bytes": "Bytes", "string": "String", "fixed": "Fixed", "float": "Float", "double": "Double", "boolean": "Boolean", "null": "Null"}
 
 
+_PROG = None
+
+
 def entries(body, reg):
     out = []
     for bi in rpo(body, reg):
@@ -37,6 +40,19 @@ def entries(body, reg):
             out.append(("entry", body.op_str(t["args"][1]), body.op_str(t["args"][2]), bi))
         elif nm[0] == "serde::Serializer::serialize_str":
             out.append(("str", body.op_str(t["args"][1]), None, bi))
+        elif _PROG is not None and any(n in _PROG.bodies and _PROG.bodies[n].crate == "apache_avro" and _PROG.bodies[n].kind != "Closure" and "serialize_to_map" not in n
+                                        and not n.endswith("::serialize") for n in nm) and any(body.op_str(a) is not None for a in t["args"]):
+            # a local helper that writes entries from its string parameters: `helper(serializer, "long", "time-micros")`
+            cal = [_PROG.bodies[n] for n in nm if n in _PROG.bodies][-1]
+            for kind2, k2, v2, bi2 in entries(cal, set(range(cal.n))):
+                if kind2 != "entry":
+                    continue
+                if v2 is None:
+                    ct = cal.blocks[bi2]["term"]
+                    r_ = cal.resolve_operand(ct["args"][2]) if ct["args"][2].get("k") in ("copy", "move") else None
+                    if r_ and 1 <= r_[0] <= cal.argc and r_[0] - 1 < len(t["args"]):
+                        v2 = body.op_str(t["args"][r_[0] - 1])
+                out.append(("entry", k2, v2, bi))
         elif any("serialize_to_map" in n for n in nm):
             skip = []
             if len(t["args"]) > 2:
@@ -48,6 +64,8 @@ def entries(body, reg):
 
 def run(rep, tier="quick", replay=None, evidence_dir=None):
     prog = Program(factsmod.extract())
+    global _PROG
+    _PROG = prog
     rep.rule("C10.R1", "keys written explicitly per node kind = keys the parser treats as structural for that kind")
     rep.rule("C10.R2", "logicalType names and base types agree between serializer and parser")
     rep.rule("C10.R3", "namespace is written wherever name is; references are written as full names")
@@ -195,6 +213,40 @@ def run(rep, tier="quick", replay=None, evidence_dir=None):
                                                 helper_bad = h.path
                         if helper_bad:
                             bad.append("<filtered by %s>" % helper_bad)
+        # a guard of the form `LIST.contains(key)` around the write: every name on a constant list must be a key this serializer
+        # writes itself (then the attribute would be a duplicate); anything else on the list is silently lost
+        explicit = set(k for kind, k, v, bi in entries(body, set(range(body.n))) if kind == "entry" and k is not None)
+        for kind, k, v, bi in entries(body, set(range(body.n))):
+            if kind != "entry" or k is not None:
+                continue
+            lp = shape.loop_of(body, bi)
+            if lp is None:
+                continue
+            for x in sorted(lp[1]):
+                t = body.blocks[x]["term"]
+                if t["t"] == "call" and callee_names(t["func"])[0].endswith("::contains") and t["args"]:
+                    names_ = None
+                    a0 = t["args"][0]
+                    ci = body.op_const(a0) if a0.get("k") == "const" else None
+                    if ci and ci.get("strs"):
+                        names_ = ci["strs"]
+                    if names_ is None and a0.get("k") in ("copy", "move"):
+                        r_ = body.resolve_operand(a0)
+                        if r_:
+                            sd_ = body.single_def(r_[0])
+                            if sd_ and sd_[2] == "assign" and sd_[3]["r"] == "use" and sd_[3]["o"].get("k") == "const":
+                                ci = body.op_const(sd_[3]["o"])
+                                if ci and ci.get("strs"):
+                                    names_ = ci["strs"]
+                                elif sd_[3]["o"].get("item"):
+                                    try:
+                                        names_ = prog.const(sd_[3]["o"]["item"]).get("strs")
+                                    except KeyError:
+                                        names_ = None
+                    if names_:
+                        lost = sorted(set(names_) - explicit)
+                        if lost:
+                            bad.append("<list: %s>" % ", ".join(lost))
         rep.ob("C10.R1", "%s writes every custom attribute (no key is filtered out by name)" % what, n_attr >= 1 and not bad,
                "attribute loop skips keys %s: a custom attribute with that name is lost on a JSON round trip (and from file headers)" % sorted(set(bad)) if bad else "no attribute loop found", body.loc())
     # ---------------- R2 logical types
